@@ -692,9 +692,9 @@ def exh_size(tier):
 
 SUBS = [
     Sub("size_formula", GC.size_case, prop_size, budget=dict(quick=5000, thorough=100000), exhaustive=exh_size,
-        floor=dict(quick=1000, thorough=12000),
+        floor=dict(quick=1000, thorough=20000),
         nontrivial_rule="the layout has a gap, an offset, or is dynamic (dynamic shape for the no-layout case)"),
-    Sub("placement", GC.place_case, prop_place, budget=dict(quick=3000, thorough=60000), floor=dict(quick=200, thorough=4000),
+    Sub("placement", GC.place_case, prop_place, budget=dict(quick=3000, thorough=60000), floor=dict(quick=200, thorough=5000),
         nontrivial_rule="two buffers of one memory have intersecting true lifetimes and some buffer's last use is through a view or "
                         "nested in scf.for/scf.if"),
 ]
